@@ -152,3 +152,47 @@ def clone_labeling(rng: random.Random, f, alphabet, *, tries=30):
         if ok:
             return labs
     return None
+
+
+def history_prelude(t, nodes, rng, typed):
+    """Brings the tree into a state with a history before the queries are evaluated: refused calls
+    (collision, invalid position, bad kind, ids on deep copies) and add/remove pairs that return a
+    node to being childless.  The oracle re-reads the tree afterwards, so this is sound."""
+    kw = {"kind": "kx"} if typed else {}
+    live = [n for n in nodes]
+    for _ in range(4):
+        if not live:
+            break
+        n = rng.choice(live)
+        r = rng.random()
+        try:
+            if r < 0.2:
+                n.add(n.data, data_id=n.data_id, **kw) if False else n._parent.add(n.data, data_id=n.data_id, **kw)  # collision
+            elif r < 0.35:
+                n.add("tmp-new", before=n, **kw)  # invalid position: `before` is not a child of n
+            elif r < 0.45 and typed:
+                n.add("tmp-new", kind=123)  # invalid kind
+            elif r < 0.55:
+                n.add(n, deep=True, data_id="some-id", **kw)  # ids are not allowed for deep copies
+            elif r < 0.7:
+                c = n.add("tmp-child", **kw)  # childless -> one child -> childless again
+                c.remove()
+            elif r < 0.85:
+                # move within the own parent (also as an only child) / to another node
+                tgt = rng.choice([n.parent if n.parent is not None else t, rng.choice(live)])
+                if tgt is not n and not (hasattr(tgt, "is_descendant_of") and tgt.is_descendant_of(n)):
+                    n.move_to(tgt, before=rng.choice([None, True]))
+            else:
+                c = n.add("tmp-child-2", **kw)
+                n.remove_children()
+        except Exception:
+            pass
+    out = []
+
+    def rec(h):
+        for c in h.children:
+            out.append(c)
+            rec(c)
+
+    rec(t)
+    return out
